@@ -1,14 +1,16 @@
 (* C15 — property theorems only.  Each is closed by [exact] of a lemma from
    Proofs.v and followed by Print Assumptions.
 
-   Histories [hs] are lists over {start, acquire, release, complete, abort,
-   watchdog.execute} ([XHop]) interleaved with the calls that change what a later
-   acquisition returns without being one: PriorityInheritance.check_and_boost /
+   Histories [hs] are lists over {start (also with the watchdog_exempt mark),
+   acquire, release, complete, abort, manual kill, watchdog.execute} ([XHop])
+   interleaved with the calls that change what a later acquisition or watchdog
+   pass does without being one: PriorityInheritance.check_and_boost /
    restore_priority / clear_all, an assignment to OperationContext.priority, an
-   assignment to ResourceLock.allow_preemption ([xop] in Model.v) - of ANY length
+   assignment to ResourceLock.allow_preemption, time passing, controller.advance,
+   ResourceLock.pop_next_waiter ([xop] in Model.v) - of ANY length
    over any number of operations and resources ([res] = registered resources with
-   their initial allow_preemption flag, [w] = the watchdog configuration incl. the
-   victim strategy).  [fst (xrun current w (xinit res) hs)] is the pair (controller
+   their initial allow_preemption flag, [w] = the watchdog configuration: the three
+   time-outs and the victim strategy).  [fst (xrun current w (xinit res) hs)] is the pair (controller
    state, ghost set of currently blocked (waiter, resource) pairs) after the
    history (its second component is PriorityInheritance.active_boosts);
    histories over the basic alphabet are the special case [map XHop hs]
@@ -81,7 +83,10 @@ Print Assumptions c15_deadlock_iff_reference_cycle.
    strategy), it is among the terminated operations, afterwards it is not
    active, owns nothing, c is no longer a cycle of the recorded edges, and the
    edges are again exactly the reference relation ([Inv]).  The keys are the
-   priorities as they are at that moment (after any inheritance boost). *)
+   priorities as they are at that moment (after any inheritance boost).  With
+   time-outs configured the same pass may terminate further operations, and the
+   victim itself may be terminated as overdue instead of as DEADLOCK victim: it is
+   terminated either way. *)
 Theorem c15_victim_minimal_and_released :
   forall res w hs c,
     let gs := fst (xrun current w (xinit res) hs) in
@@ -124,9 +129,10 @@ Theorem c15_obtained_not_waiting :
 Proof. exact x_obtained_not_waiting_proof. Qed.
 Print Assumptions c15_obtained_not_waiting.
 
-(* a call that is not an acquisition, release, completion, abort or watchdog run (priority
-   inheritance, its undoing, a priority or allow_preemption assignment) changes neither the
-   recorded nor the reference relation nor the verdict of check_deadlock - in ANY state *)
+(* a call that is not a start, acquisition, release, completion, abort, kill or watchdog run
+   (priority inheritance, its undoing, a priority or allow_preemption assignment, time passing,
+   controller.advance, pop_next_waiter) changes neither the recorded nor the reference relation
+   nor the verdict of check_deadlock - in ANY state *)
 Theorem c15_priority_calls_keep_relation :
   forall fl w xs a,
     prio_call a ->
@@ -143,6 +149,12 @@ Print Assumptions c15_priority_calls_keep_relation.
 Theorem c15_boost_fuel_suffices : forall s bs, check_and_boost s bs <> None.
 Proof. exact boost_fuel_proof. Qed.
 Print Assumptions c15_boost_fuel_suffices.
+
+(* a manual kill ends an operation exactly as an abort does (state and ghost relation) *)
+Theorem c15_kill_is_abort :
+  forall fl w gs o, fst (gstep fl w gs (HKill o)) = fst (gstep fl w gs (HAbort o)).
+Proof. exact kill_is_abort_proof. Qed.
+Print Assumptions c15_kill_is_abort.
 
 (* histories over the basic alphabet are exactly the extended histories without priority calls *)
 Theorem c15_basic_histories_embed :
